@@ -23,6 +23,7 @@ Families ==
        \cup {Fam("TAB", 1, 3, 0), Fam("TAB", 2, 4, 0)}
        \cup (IF Tier = "thorough"
              THEN {Fam("TAB", m, 3, 1) : m \in 1..3} \cup {Fam("W3", 3, 1, 0)} \cup {Fam("TAB", 1, 4, 1)}
+                  \cup {Fam("TAB", 4, 1, 0)}
                   \cup {Fam("TAB", m, p, s) : m \in 1..3, p \in 1..2, s \in 2..3}
              ELSE {})
 
@@ -30,6 +31,8 @@ NsFor(f) == IF f.name = "W3" THEN {2}
             ELSE IF Tier = "thorough" THEN {n \in 2..5 : n >= f.M}
             ELSE IF Tier = "tiny" THEN {3}
             ELSE {n \in 3..4 : n >= f.M}
+                 \* square and nearly square weighted basis matrices (N = M) for the tabulated families
+                 \cup (IF f.name = "TAB" /\ f.M = 2 /\ f.P = 1 THEN {2} ELSE {})
 
 AlphaVals == IF Tier = "thorough" THEN <<-1, 0, 1, 2>> ELSE <<-1, 0, 1>>
 (* three-parameter families get a thinner lattice *)
